@@ -10,7 +10,7 @@
 """
 import json, os, re, sys, hashlib
 
-VERIF = os.environ.get("VERIF_DIR", "/verif")
+VERIF = os.environ.get("VERIF_DIR") or os.path.dirname(os.path.dirname(os.path.abspath(__file__)))
 REPO = os.environ.get("REPO", "/repo")
 BUILD = os.path.join(VERIF, "build")
 SODIUM = os.path.join(BUILD, "sodium")
@@ -76,5 +76,30 @@ def build_overlay(extra=None):
     write_if_changed(path, json.dumps({"Replace": replace}, indent=1, sort_keys=True))
     return path
 
+def go2lean_config():
+    """tools/go2lean.d/*.json — one translator module per file."""
+    d = os.path.join(VERIF, "tools", "go2lean.d")
+    mods = []
+    for f in sorted(os.listdir(d)):
+        if f.endswith(".json"):
+            mods.append(json.load(open(os.path.join(d, f))))
+    return mods
+
+def snake(name):
+    return re.sub(r"(?<=[a-z0-9])([A-Z])", r"_\1", name).lower()
+
+def mklake():
+    """lean/lakefile.toml is derived: one lean_exe per lean/Driver/<Name>Main.lean (exe name = snake(<Name>); Main.lean → drv)."""
+    ld = os.path.join(VERIF, "lean")
+    out = ['name = "AlgoVerif"', 'version = "0.1.0"', 'defaultTargets = ["AlgoVerif"]', "", "[[lean_lib]]", 'name = "AlgoVerif"', 'globs = ["AlgoVerif.+"]', ""]
+    for f in sorted(os.listdir(os.path.join(ld, "Driver"))):
+        if not f.endswith("Main.lean"):
+            continue
+        base = f[:-len("Main.lean")]
+        exe = snake(base) if base else "drv"
+        out += ["[[lean_exe]]", 'name = "%s"' % exe, 'root = "Driver.%s"' % f[:-5], ""]
+    write_if_changed(os.path.join(ld, "lakefile.toml"), "\n".join(out))
+
 if __name__ == "__main__":
+    mklake()
     print(build_overlay())
